@@ -36,7 +36,9 @@ def run(tier):
     items = []           # (name, func, slices, pct, bounds-extra)
     A5 = list(range(5))
     if tier == "quick":
-        sl = [dict(rows=3, n=1, table=T1, muts=[[g]], orders=[[0, 2], O3]) for g in range(nm)]
+        sl = [dict(rows=3, n=1, table=T1, muts=[[g]], orders=[[0, 2], O3]) for g in range(1, nm)]
+        # mutator 0 on T1: the combined slice regularly ends "explored, not exhausted"; one slice per order pair is exhausted
+        sl += [dict(rows=3, n=1, table=T1, muts=[[0]], orders=[[o0], [o1]]) for o0 in (0, 2) for o1 in O3]
         sl += [dict(rows=3, n=1, table=T2, muts=[[g]], orders=[[0, 2], O3]) for g in (0, 5, 9, 10)]
         items.append(("DataModel: fixed table, 1 mutation, written values symbolic", "check_datamodel_t1", sl, 300))
         vl = [5, 6]
